@@ -870,6 +870,9 @@ func evaluate(s *Scenario, st *runStats) (fail *Failure) {
 				st.Faults["garbage_collection_at_a_chosen_instant"] += 3
 			}
 		}
+		if obs.ColdFallback != "" {
+			st.Probes["cold_child_unavailable_evaluated_in_worker"]++
+		}
 		if raceEnabled {
 			st.Probes["race_detector_active"]++
 		}
